@@ -1048,6 +1048,8 @@ func generate(rng *lib.Rng, tier string) []job {
 	jobs = append(jobs, genDegenerateLayouts(rng.Fork(), b)...)
 	jobs = append(jobs, genHostileSignatures(b)...)
 	jobs = append(jobs, genHostileDirs(b, thorough)...)
+	jobs = append(jobs, genHostileCerts(b)...)
+	jobs = append(jobs, genNullMembers(rng.Fork(), b, thorough)...)
 	jobs = append(jobs, genDirect()...)
 	jobs = append(jobs, genRecord()...)
 	jobs = append(jobs, genKeyFiles(rng.Fork(), b, thorough)...)
